@@ -2,6 +2,7 @@ package rules
 
 import (
 	"fmt"
+	"go/types"
 	"sort"
 	"strings"
 
@@ -111,7 +112,7 @@ func batchOps(fn *ssa.Function) map[string]map[string][]ssa.Instruction {
 func C12(c *Ctx) {
 	r := c.R
 	r.Rule("R12.1", "refusal before mutation: in RollbackState and RollbackBlockChain no path reaches the return of ErrorRollbackToHigherNumber / ErrorRollbackTooMuch after a cache clear, batch operation or ledger field store; Ledger.Rollback attempts the chain rollback only across the no-error edge of the state rollback.")
-	r.Rule("R12.2", "caches purged: every path of RollbackState that reverts a journal first clears the in-block account map and the account cache.")
+	r.Rule("R12.2", "caches purged: every path of RollbackState that reverts a journal first clears the in-block account map and the account cache; AccountCache.clear purges every lru layer of the cache struct.")
 	r.Rule("R12.3", "journal completeness: the storage kinds written by Commit (account record, code, state key) are exactly the kinds revertJournal restores, each with put and delete; the journal record of a height is put into the same batch as that height's data and the max-height marker; each reverted height deletes its journal record and lowers the max-height marker in the batch that carries the reverted data.")
 	r.Rule("R12.4", "root chain continues: after reverting, every successful path stores prevJnlHash (re-read from the target height's journal) and maxJnlHeight.")
 	r.NotDecided = append(r.NotDecided, "value-level equality of restored state; re-execution equivalence")
@@ -172,6 +173,40 @@ func C12(c *Ctx) {
 			return ok && strings.HasSuffix(core.CalleeName(call), "AccountCache).clear")
 		}, isRevert, "accountCache.clear()", "revertJournal")
 		r.Floor("R12.2", "journal revert sites", n, 1)
+	}
+
+	// purge completeness of AccountCache.clear
+	if cl := c.fn("R12.2", "internal/ledger.(*AccountCache).clear"); cl != nil {
+		purged := map[string]bool{}
+		for _, call := range core.Calls(cl) {
+			o := core.CalleeObj(call)
+			if o == nil || (o.Name() != "Purge") {
+				continue
+			}
+			if _, f, _, ok := core.FieldOf(core.Receiver(call)); ok {
+				purged[f] = true
+			}
+		}
+		var missing []string
+		nf := 0
+		if pk := c.P.Package(ledgerPkg); pk != nil {
+			if tn, ok := pk.Types.Scope().Lookup("AccountCache").(*types.TypeName); ok {
+				if st, ok := tn.Type().Underlying().(*types.Struct); ok {
+					for i := 0; i < st.NumFields(); i++ {
+						f := st.Field(i)
+						if strings.HasSuffix(f.Type().String(), "lru.Cache") {
+							nf++
+							if !purged[f.Name()] {
+								missing = append(missing, f.Name())
+							}
+						}
+					}
+				}
+			}
+		}
+		r.Floor("R12.2", "cache layers of AccountCache", nf, 3)
+		r.Check(len(missing) == 0, "R12.2", "AccountCache.clear purges every cache layer", c.P.Pos(cl.Pos()), fmt.Sprintf("%d lru layers, all purged", nf),
+			"a rollback leaves the cache layer "+strings.Join(missing, ",")+" populated with entries of the discarded blocks: later reads return data of a height above the rollback target")
 	}
 
 	// R12.3
